@@ -163,6 +163,12 @@ class Conds:
             return {("cmp", op, df.strip(tree[2]), df.strip(tree[3]))}
         if k == "un" and tree[1] == "Not":
             return self._bool_literals(tree[2], not truth, depth + 1)
+        if k == "call" and tree[1] in ("bool::and", "bool::or") and len(tree[3]) == 2:
+            # and-true / or-false: both sides are decided
+            if (tree[2] == "and") == truth:
+                return self._bool_literals(df.strip(tree[3][0]), truth, depth + 1) | \
+                    self._bool_literals(df.strip(tree[3][1]), truth, depth + 1)
+            return {("bool", tree, truth)}
         if k == "const":
             return set()
         if k == "phi":
